@@ -17,6 +17,7 @@ EXTENDS Kill, Json, IOUtils
 Trace == ndJsonDeserialize(IOEnv.VERIF_TRACE)
 TrBehaviour == Trace[1].behaviour
 TrDelay == Trace[1].delay
+TrLag == Trace[1].lag
 VARIABLES l
 tvars == <<kv, l>>
 E == Trace[l]
